@@ -511,6 +511,9 @@ func (o *oracle) respSubtree(rq *request) {
 		}
 		if len(rq.subSigners) > 0 {
 			w.sim.Probe("subtree.signed")
+			if len(w.signedHeaders) < 16 {
+				w.signedHeaders = append(w.signedHeaders, signedHeader{rq.subStart, rq.subEnd, rq.subHash, rq.subProof})
+			}
 		}
 	}
 }
